@@ -567,7 +567,9 @@ class AbstractJob:                                      # pylint: disable=R0902
           an exception if the job has completed by raising an exception,
           and None otherwise.
         """
-        return self._task is not None and self._task._exception
+        if self._task is None:
+            return None
+        return self._task._exception
 
     def is_critical(self):
         """
